@@ -46,6 +46,27 @@ PROPS = {
         "rule": "xfuzz: all 1-2 byte inputs over a 33-byte alphabet x 3 grammars, random bytes, mutated valid expressions (under recover: any panic is an observation); "
                 "c05fault: random supported paths x the k-th data-tree callback failing for every k in 1..8; compared: the error that reaches GetError/Get*Result",
     },
+    "C07": {
+        "streams": {"yfuzz": {"quick": 10000, "thorough": 400000}},
+        "trusted": ["the Go runtime reaps a goroutine whose function returned (observed by goroutine dumps, not proved)"],
+        "modelled": ["statement checks (cardinality/arguments, C09) are outside this model: the streams use prefixed extension keywords, for which the parser applies none"],
+        "rule": "every text of length <=3 (quick) / <=4 (thorough) over a 16-byte alphabet (exhaustive), every prefix of generated modules (every way a text can end inside a "
+                "token, string, comment or block), random bytes; parse.Parse under a watchdog, then a goroutine dump filtered for parse.(*lexer).run; compared: ok / err line:col, leaked goroutines",
+    },
+    "C08": {
+        "streams": {"yarg": {"quick": 20000, "thorough": 500000}},
+        "trusted": [],
+        "modelled": ["RFC 6020 does not fix the order of whitespace trimming and escape substitution: texts with \\n/\\t escapes in multi-line strings, and undefined escapes, are compared implementation-vs-model only"],
+        "rule": "(value, quoting, layout) triples: values over an alphabet with quotes, backslashes, //, /*, +, ;{}, tabs, CR, LF, multi-byte runes; 1-3 pieces joined by '+'; unquoted / single / "
+                "double quoting; indentation by blanks and tabs to the exact quote column, blank lines, CRLF, comments between tokens; compared: Node.Argument().String() with the model and with Spec.decodeArg",
+    },
+    "C10": {
+        "streams": {"ytree": {"quick": 10000, "thorough": 200000}},
+        "trusted": [],
+        "modelled": [],
+        "rule": "random statement trees (prefixed extension keywords, depth <=3/6, fan-out <=4) spelled with random trivia (blanks, tabs, LF, CRLF, /* */ and // comments containing statement "
+                "punctuation) at every token boundary and a random quoting of every argument; compared: walk of Tree.Root (keyword, argument, line:col of every keyword) with the model and with the generated tree",
+    },
     "C04": {
         "streams": {"xsmall": {"quick": 1, "thorough": 1, "spec_proj": "accept"},
                     "xfuzz": {"quick": 30000, "thorough": 1000000, "spec_proj": "accept"}},
